@@ -1693,6 +1693,10 @@ class Interp:
         if isinstance(k, Cls):
             if isinstance(v, Obj) and v.cls is not None:
                 return k.ci in v.cls.mro
+            if isinstance(v, Obj) and v.cls is None and self.opts.get("closed_world", True):
+                return False  # an opaque symbol is not an instance of a repository class
+            if isinstance(v, (Lst, Tup, Dct, Fn, Cls)):
+                return False
             if isinstance(v, Const):
                 return False
             ci = class_of(v)
